@@ -4,6 +4,7 @@ import json, os, subprocess
 ROOT = os.path.dirname(os.path.dirname(os.path.abspath(__file__)))
 props = [json.loads(l) for l in open(os.path.join(ROOT, "properties.jsonl"))]
 
+B_NOTE = "Trusted: the generator's own expectations (gen/shapegen*.py) and the log comparison; grammar calibrated to what the pinned macro accepts (listed in gen/shapegen.py `supported` with the rustc reason); types from a fixed catalogue."
 A_NOTE = ("Trusted: Spec-M (engines/harness/src/spec.rs, ~600 lines, no code shared with unimock) and the "
           "comparison code in check.rs; hooks H1/H2 forward/read only. Bounds: 11-method universe, argument "
           "domain {0,1,2}, <= 6 patterns per method, <= 4 response segments, counts 0..3, histories <= 24 "
@@ -18,6 +19,8 @@ CHECKS = {
    text="Verification outcome (drop, verify(), report()) compared as a multiset of expectation lines with Spec-M, on histories steered to one below / at / one above every bound; both directions of the iff.", ref="5 C03", note=A_NOTE),
  "C04": dict(engine="dynmock", technique="runtime monitoring: randomized differential testing of ordered sequences against Spec-M, global index via hook H2",
    text="Every call to an ordered method is judged against the slot arithmetic of Spec-M (accept/reject kind, response, global index); histories follow the expected sequence and deviate at random points.", ref="5 C04", note=A_NOTE),
+ "C05": dict(engine="shapegen", technique="runtime monitoring of generated programs: caller, input matcher and answer function log probes and addresses of every argument; generator-side expectation",
+   text="For every generated trait shape (receiver x arity 0-5 x 18 parameter kinds x 9 return kinds x sync/async forms x api forms) the values and addresses seen by the matcher and the answer function must equal the caller's, position by position; the result must be the answer's; &mut mutations must be visible; async methods evaluate once per await and not at all when dropped unpolled.", ref="5 C05", note=B_NOTE),
  "C07": dict(engine="dynmock", technique="runtime monitoring: decision-table sweep (strict/partial x unmentioned/unmatched/matched x default body/real fn) judged by Spec-M with callback event logs",
    text="Outcome, callback log (which real function / default body ran, with which arguments) and counters compared with Spec-M for every fall-through situation, incl. hand-written partial-by-default MockFns (hook H4).", ref="5 C07", note=A_NOTE),
  "C08": dict(engine="dynmock", technique="runtime monitoring: fault injection (user panics in matcher/answer/real/default callbacks) and mock-induced panics on clones/threads; verification text must contain every recorded error",
@@ -34,6 +37,10 @@ CHECKS = {
    text="For 13 return shapes (plain, Option, and Deep Result/tuple/Option/Poll mixes with owned leaves) the registry must show: a single-use value reaches at most one caller under every enumerated/sampled schedule, every other request is refused by a mock panic, delivered values are alive, repeatable values are clones of the intact stored original, every constructed value is dropped exactly once.", ref="5 C12", note="The compile-time half (builder refuses to quantify non-Clone values) is sampled by the compile probe when present, not monitored at run time. Registry in engines/harness/src/toks.rs is trusted."),
  "C13": dict(engine="sched", technique="runtime monitoring: every live lent reference re-validated (address, identity, checksum, distinctness, not dropped) after every step of random lending sequences; drop-order checks over the registry; controlled schedules at the value-chain insertion site, stress, Miri/TSan/valgrind in the thorough tier",
    text="Random phases of make_ref / borrowed returns / delegation-helper lending / make_mut on an original and a clone, and 2-8 threads lending from one shared instance; all references are re-checked after each step and the registry must show values dropped exactly once and never before their owner (only make_mut releases).", ref="5 C13", note="unimock has no unsafe code; memory-level validity is sampled by Miri/valgrind in the thorough tier. Registry trusted."),
+ "C15": dict(engine="shapegen", technique="runtime monitoring of generated programs (default bodies log what they receive; required-method answers log their arguments; body evaluated independently by the generator) plus Spec-M histories (dynmock)",
+   text="Generated traits with a provided method on six receiver kinds whose body calls 0-3 required methods; reached by fall-through (strict/partial) or applies_default_impl() (ordered and counted), after an earlier borrowed delegation and mixed with direct calls; result, argument logs, shared counts/slots and the moment of verification for by-value receivers are checked.", ref="5 C15", note=B_NOTE + " `self: Box<Self>` provided methods are rejected by the pinned macro and are out of scope."),
+ "C16": dict(engine="shapegen", technique="runtime monitoring of generated programs (real functions log arguments, addresses and nested results) plus Spec-M histories (dynmock)",
+   text="Generated traits with 1-4 methods and unmock_with lists mixing path / path(params..) / _ and entries for skipped associated functions; every method is unmocked via an empty partial mock and via applies_unmocked(); exactly one invocation of the right function with the caller's arguments, result unchanged, calls back into the mock counted there, `_` panics naming the method.", ref="5 C16", note=B_NOTE),
  "C18": dict(engine="dynmock", technique="runtime monitoring: metamorphic testing (run-against-run comparison of the real code, no model)",
    text="Four relations between runs of the real code: clause permutation, routing over clones/threads, a second independent mock with interleaved foreign calls, swapped generic instantiations. Any difference in a call outcome or the verification line multiset is a violation.", ref="5 C18", note="No specification involved; trusted: the transformation code in meta.rs. std build only (the documented no_std difference makes routing over clones observable there)."),
 }
@@ -73,6 +80,8 @@ def main():
         "engines": [
             {"name": "sched", "path": "engines/harness/src/bin/sched.rs", "serves_properties": ["C10", "C12", "C13", "C08", "C02"],
              "kind_free_text": "Engine C: token-passing controlled scheduler driven by hook H3, linearizability checker, real-thread stress, sanitizer stages"},
+            {"name": "shapegen", "path": "gen/shapegen.py", "serves_properties": ["C05", "C15", "C16", "C06", "C17", "C19", "C20"],
+             "kind_free_text": "Engine B: python generators write Rust programs (one module per shape/pattern) with logging drivers; expectations computed by the generator; built against /repo and run"},
             {"name": "crashbox", "path": "engines/harness/src/bin/crashbox.rs", "serves_properties": ["C11"],
              "kind_free_text": "Engine D: crash-point x topology scenarios, each in an expendable child process"},
             {"name": "dynmock", "path": "engines/harness/src/bin/dynmock.rs", "serves_properties": ["C01","C02","C03","C04","C07","C08","C09","C14","C18"],
